@@ -182,8 +182,10 @@ class Recorder:
         self.net.on_recv_hook = self._on_recv
         self.net.on_recv_done_hook = self._on_recv_done
         self._exc_seen = 0
+        self._in_recv = False
 
     def _on_recv(self, e: dict, data: bytes) -> None:
+        self._in_recv = True
         did = self.did.setdefault(data, len(self.did) + 1)
         items = self.items_by_data.get(data)
         if items is not None:
@@ -199,10 +201,14 @@ class Recorder:
             self.ev('recv', did=did, q=isq, qu=qu, items=[])
 
     def _on_recv_done(self, e: dict) -> None:
-        n = sum(1 for x in self.net.log if x['ev'] == 'exc')
+        self._in_recv = False
+        excs = [x for x in self.net.log if x['ev'] == 'exc']
+        n = len(excs)
         if n != self._exc_seen:
+            new = excs[self._exc_seen:]
             self._exc_seen = n
-            self.ev('exc', what=[x for x in self.net.log if x['ev'] == 'exc'][-1].get('cls'))
+            if any(x.get('cls') != 'HarnessFault' for x in new):     # (the harness's own fault is logged as 'uexc' where it is raised)
+                self.ev('exc', what=[x for x in new if x.get('cls') != 'HarnessFault'][-1].get('cls'))
         self.ev('recv_done')
 
     def ev(self, _ev: str, **kw: Any) -> dict:
@@ -286,7 +292,10 @@ class Recorder:
                                   'oc': whole(o.created) if o is not None else 0,
                                   'ottl': capttl(o.ttl) if o is not None else 0})
                 rec.ev('lcall', lid=lid, ph='upd', now=int(now), pairs=pairs, view=rec.view())
-                rec.run_script(script, self.calls, 'upd')
+                # a faulty application: this listener raises -- only on a datagram that adds and removes nothing (every record a
+                # refresh of a cached one), so that what the library has done by then is all there is to do
+                safe = all(ru.old is not None and ru.new.ttl > 0 for ru in records) and not rec.in_purge()
+                rec.run_script(script, self.calls, 'upd', safe)
 
             def async_update_records_complete(self) -> None:
                 if self.skip_done:
@@ -296,11 +305,22 @@ class Recorder:
                 rec.run_script(script, self.calls, 'done')
         return L()
 
-    def run_script(self, script: Optional[dict], ncall: int, ph: str) -> None:
+    def in_purge(self) -> bool:
+        return not self._in_recv
+
+    def run_script(self, script: Optional[dict], ncall: int, ph: str, safe: bool = False) -> None:
         if not script:
             return
         for act in script.get(f'{ph}{ncall}', []):
+            if act['op'] == 'raise':
+                continue
             self.do_listener_action(act)
+        if ph == 'upd' and not self.in_purge() and ((safe and script.get('raise_safe')) or script.get('raise_any')):
+            k = script.setdefault('_raise_calls', 0) + 1
+            script['_raise_calls'] = k
+            if k % (script.get('raise_any') or script['raise_safe']) == 0:
+                self.ev('uexc')
+                raise simnet.HarnessFault('listener raises')
 
     def do_listener_action(self, act: dict) -> None:
         zc = self.host.zc
@@ -431,6 +451,12 @@ def gen_scenario(rng: random.Random, sid: str, n_dgrams: int, with_dups: bool = 
             script[f"{rng.choice(['upd', 'done'])}{k}"] = [{'op': rng.choice(['ladd', 'lrem']), 'lid': tgt}]
             if rng.random() < 0.3:
                 script[f"{rng.choice(['upd', 'done'])}{k + 1}"] = [{'op': 'lrem', 'lid': lid}]
+        if lscripts and rng.random() < 0.25:
+            script = dict(script or {})
+            # a faulty listener: raises on every k-th call that is a pure refresh (raise_safe) or on every k-th call whatever the
+            # datagram holds (raise_any: what that datagram adds or removes may then be lost -- both outcomes are accepted --
+            # but nothing of it may leak into the datagrams that follow)
+            script[rng.choice(['raise_safe', 'raise_any'])] = rng.choice([1, 2, 3])
         steps.append({'op': 'ladd', 'lid': lid, 'script': script, 'snap': False})
     ids = list(VOCAB)
     ptr_ids = [1, 2, 3]
